@@ -29,6 +29,30 @@ def s(self, old_value, num_clusters, num_data_points):
 """
 
 
+def _unfloor(v):
+    """Replace every max(x, c) / max(c, x) with 0 < c <= 1e-6 by x."""
+    from fractions import Fraction
+
+    from ..formula import atoms_of
+    from ..termflow import Poly, _is_polykey, poly_from_key, subst
+
+    def small(k):
+        if _is_polykey(k):
+            p = poly_from_key(k)
+            return p.is_const() and 0 < p.const_value() <= Fraction(1, 10 ** 6)
+        return False
+
+    mapping = {}
+    for a in atoms_of(v, tag="call", name="max"):
+        if len(a[2]) == 2 and not a[3]:
+            x, c = a[2]
+            if small(x):
+                x, c = c, x
+            if small(c):
+                mapping[a] = poly_from_key(x) if _is_polykey(x) else Poly.atom(x)
+    return subst(v, mapping) if mapping else v
+
+
 def run(ctx):
     prog = ctx.prog
     ctx.assume("scipy.stats beta/bernoulli/gamma rvs draw from the named laws with (a, b) / p / (shape, scale) parameters")
@@ -41,7 +65,9 @@ def run(ctx):
     sp = spec(prog, SPEC_SAMPLE, f)
     for nm, label in (("scipy.stats.beta.rvs", "eta ~ Beta(alpha + 1, n)"), ("scipy.stats.bernoulli.rvs", "mixture indicator ~ Bernoulli(pi)"), ("scipy.stats.gamma.rvs", "Gamma draws (k = 0 arm and mixture component)")):
         same_events(ctx, "U1", "GammaPriorConcentrationSampler.sample: " + label, f, ex.calls(nm), sp.calls(nm), label)
-    same(ctx, "U1", "GammaPriorConcentrationSampler.sample: returned value", f, ex.result, sp.result, "new concentration")
+    # the statement is about the law of the draw; a tiny positive floor guarding against underflow (on either
+    # arm) does not change it and is C19.T5's business: both sides are compared with such floors removed
+    same(ctx, "U1", "GammaPriorConcentrationSampler.sample: returned value", f, _unfloor(ex.result), _unfloor(sp.result), "new concentration (numerical floors <= 1e-6 removed)")
     init = prog.fn("GammaPriorConcentrationSampler.__init__")
     ei = extract(prog, init)
     si = spec(prog, "def s(self, a, b, rng):\n    self.a = a\n    self.b = b\n    self._rng = rng\n", init)
@@ -97,6 +123,9 @@ _C = "phyclone/mcmc/concentration.py"
 _R = "phyclone/run.py"
 _D = "phyclone/tree/distributions.py"
 SELFTEST = [
+    {"name": "benign-U1-floor-on-mixture-arm-only", "kind": "benign", "file": _C, "old": "        new_value = max(new_value, 1e-10)  # Catch numerical error\n", "new": "            new_value = max(new_value, 1e-10)  # Catch numerical error\n"},
+    {"name": "benign-U1-no-floor", "kind": "benign", "file": _C, "old": "        new_value = max(new_value, 1e-10)  # Catch numerical error\n", "new": ""},
+    {"name": "U1-floor-is-one", "kind": "break", "rule": "U1", "file": _C, "old": "new_value = max(new_value, 1e-10)", "new": "new_value = max(new_value, 1.0)"},
     {"name": "U1-beta-a-old", "kind": "break", "rule": "U1", "file": _C, "old": "eta = beta.rvs(a=old_value + 1, b=n, random_state=self._rng)", "new": "eta = beta.rvs(a=old_value, b=n, random_state=self._rng)"},
     {"name": "U1-beta-b-n+1", "kind": "break", "rule": "U1", "file": _C, "old": "eta = beta.rvs(a=old_value + 1, b=n, random_state=self._rng)", "new": "eta = beta.rvs(a=old_value + 1, b=n + 1, random_state=self._rng)"},
     {"name": "U1-shape-a+k", "kind": "break", "rule": "U1", "file": _C, "old": "shape = a + k - 1", "new": "shape = a + k"},
